@@ -1,5 +1,6 @@
 import H2V.Lemmas.ConnCtlPGoAwaySent
-import H2V.Lemmas.ConnCtlPViewStreams
+import H2V.Lemmas.ConnCtlPViewFrames
+import H2V.Lemmas.ConnCtlPSettings
 /-
   ConnCtlP, part 15 — C15: `Connection::poll` keeps the GOAWAY invariant, and the GOAWAY frames it
   hands to the codec carry non-increasing last-stream-ids (`SentOK`).  The only frame that moves
@@ -29,6 +30,25 @@ def Step15 (c c' : Conn) : Prop := GoAwayInv c' ∧ GaLe c c'
 theorem Keep15.step {c c' : Conn} (h : Keep15 c c') (hi : GoAwayInv c) : Step15 c c' := ⟨h.inv hi, h.gaLe⟩
 
 -- ===================================================================== poll_ready
+
+theorem view_pollSendPendingRefusal (fuel : Nat) (s : Streams) (w : Writer) (io : Tio) (tag : String) :
+    view (Streams.pollSendPendingRefusal fuel s w io tag).1 = view s := by
+  induction fuel generalizing s w io with
+  | zero => rfl
+  | succ n ih =>
+    unfold Streams.pollSendPendingRefusal
+    rcases hr : s.sendPendingRefusal w with ⟨s1, w1, st⟩
+    have hv : view s1 = view s := by
+      have := view_sendPendingRefusal s w; rw [hr] at this; exact this
+    cases st with
+    | complete => exact hv
+    | codecFull =>
+      dsimp only
+      rcases hp : pollReadyW w1 io tag with ⟨w2, io2, r⟩
+      cases r with
+      | ready => dsimp only; rw [ih, hv]
+      | pending => exact hv
+      | err k => exact hv
 
 theorem sendPendingPongT_keep (c : Conn) : Keep15 c (sendPendingPongT c).1.1 ∧ sentG (sendPendingPongT c).2 = [] := by
   unfold sendPendingPongT
@@ -154,7 +174,115 @@ theorem recvFrame_step15 (c : Conn) (frame : Option Frame.Frame) (hi : GoAwayInv
     cases r <;> exact (Keep15.of_view rfl hv).step hi
   unfold Conn.recvFrame
   cases frame with
-  | none => exact (Keep15.of_view rfl (by simp [view_recvEof]; sorry)).step hi
-  | some f => sorry
+  | none =>
+    refine (Keep15.step ⟨rfl, ?_, ?_⟩ hi)
+    · show (view (c.streams.recvEof false)).lpi = _; rw [view_recvEof]
+    · show (view (c.streams.recvEof false)).rmax = _; rw [view_recvEof]
+  | some f =>
+    cases f with
+    | headers sid eos dep blk =>
+      dsimp only
+      obtain ⟨l, hl1, hl2⟩ := view_recvHeaders c.streams (Conn.headersIn sid eos blk)
+      rcases hr : c.streams.recvHeaders (Conn.headersIn sid eos blk) with ⟨s, r⟩
+      rw [hr] at hl1
+      dsimp only at hl1
+      have hinv : GoAwayInv ({ c with streams := s } : Conn) := by
+        rcases hl2 with hl2 | ⟨hl2, hl3, hl4⟩
+        · exact hi.congr' rfl (by show (view s).lpi = _; rw [hl1]; exact hl2) (by show (view s).rmax = _; rw [hl1])
+        · have hsid : (Conn.headersIn sid eos blk).sid = sid := rfl
+          rw [hsid] at hl2 hl3 hl4
+          constructor
+          · show (view s).lpi ≤ (view s).rmax; rw [hl1]; dsimp only; rw [hl2]; exact hl4
+          · intro ga hga
+            show (view s).lpi ≤ _
+            rw [hl1]; dsimp only; rw [hl2, hi.ga_eq_max ga hga hcn]; exact hl4
+          · intro ga hga hc
+            show _ = (view s).rmax
+            rw [hl1]; exact hi.ga_eq_max ga hga hc
+          · intro hn
+            show (view s).rmax = _
+            rw [hl1]; exact hi.none_max hn
+          · exact hi.pend
+          · exact hi.close_ga
+      cases r <;> exact ⟨hinv, GaLe.of_eq rfl⟩
+    | data sid payload eos padLen => exact lift _ (view_recvData _ _ _ _ _)
+    | reset sid code => exact lift _ (view_recvReset _ _ _)
+    | pushPromise sid promised blk => exact lift _ (view_recvPushPromise _ _ _)
+    | windowUpdate sid inc => exact lift _ (view_recvWindowUpdate _ _ _)
+    | priority sid dep w e => exact (Keep15.refl c).step hi
+    | settings ack vals => exact (Keep15.refl c).step hi
+    | goAway last code debug =>
+      dsimp only
+      obtain ⟨g1, g2⟩ := view_recvGoAwayFrame c.streams last code debug
+      rcases hr : c.streams.recvGoAwayFrame last code debug with ⟨s, r⟩
+      rw [hr] at g1 g2
+      cases r with
+      | error e =>
+        obtain ⟨e1, -⟩ := g2 e rfl
+        dsimp only at e1
+        exact (Keep15.of_view rfl (by show view s = _; rw [e1])).step hi
+      | ok u =>
+        obtain ⟨e1, -⟩ := g1 u rfl
+        dsimp only at e1
+        exact (Keep15.step ⟨rfl, by show (view s).lpi = _; rw [e1], by show (view s).rmax = _; rw [e1]⟩ hi)
+    | ping ack payload =>
+      dsimp only
+      rcases hrp : c.pingPong.recvPing ack payload with ⟨pp, status, woken, ok⟩
+      dsimp only
+      -- the connection after the bookkeeping of `recv_ping`
+      have hk1 : ∀ c1 : Conn, c1.goAway = c.goAway → view c1.streams = view c.streams →
+          Step15 c (if status == .shutdown then
+            ((if c1.goAway.isGoingAway then c1 else c1.panic "received unexpected shutdown ping").dynGoAway
+              (if c1.goAway.isGoingAway then c1 else c1.panic "received unexpected shutdown ping").streams.recv.lastProcessedId NO_ERROR,
+              (Except.ok Conn.ReceivedFrame.continue : Except PErr Conn.ReceivedFrame))
+            else (c1, Except.ok Conn.ReceivedFrame.continue)).1 := by
+        intro c1 hg hv
+        have k1 : Keep15 c c1 := Keep15.of_view hg hv
+        split
+        · have k2 : Keep15 c (if c1.goAway.isGoingAway then c1 else c1.panic "received unexpected shutdown ping") := by
+            split
+            · exact k1
+            · exact k1.trans (Keep15.of_view rfl (by simp [Conn.panic]))
+          have i2 := k2.inv hi
+          obtain ⟨d1, -, -, d4, -, -⟩ := dynGoAway_inv _ _ NO_ERROR (Nat.le_refl _) i2.lpi_le_max
+            (fun ga hga => i2.lpi_le_ga ga hga)
+          refine ⟨d1, ?_⟩
+          intro m hm
+          refine ⟨_, by simp [gaLast, d4], ?_⟩
+          have hm' : gaLast (if c1.goAway.isGoingAway then c1 else c1.panic "received unexpected shutdown ping") = some m := by
+            unfold gaLast at hm ⊢; rw [k2.1]; exact hm
+          unfold gaLast at hm'
+          cases hga : (if c1.goAway.isGoingAway then c1 else c1.panic "received unexpected shutdown ping").goAway.goingAway with
+          | none => rw [hga] at hm'; cases hm'
+          | some ga =>
+            rw [hga] at hm'
+            simp at hm'
+            rw [← hm']
+            exact i2.lpi_le_ga ga hga
+        · exact k1.step hi
+      split
+      · exact hk1 _ rfl (by simp)
+      · exact hk1 _ rfl (by simp [Conn.panic])
+
+theorem recvSettings_keep (c : Conn) (ack : Bool) (vals : List (Nat × Nat)) : Keep15 c (c.recvSettings ack vals).1 := by
+  cases ack with
+  | false =>
+    unfold Conn.recvSettings
+    simp only [Bool.false_eq_true, if_false]
+    split
+    · exact Keep15.of_view rfl (by simp [Conn.panic])
+    · exact Keep15.of_view rfl rfl
+  | true =>
+    cases hl : c.settings.loc with
+    | waitingAck loc =>
+      rw [recvSettings_ack_eq c vals loc hl]
+      dsimp only
+      obtain ⟨w, hw, -⟩ := view_applyLocalSettingsFrame c.streams loc
+      rcases hs : c.streams.applyLocalSettingsFrame loc with ⟨s, r⟩
+      rw [hs] at hw
+      dsimp only at hw
+      cases r <;> exact ⟨rfl, by show (view s).lpi = _; rw [hw], by show (view s).rmax = _; rw [hw]⟩
+    | toSend l => rw [recvSettings_ack_unsolicited c vals (by intro l' h; rw [hl] at h; cases h)]; exact Keep15.refl c
+    | synced => rw [recvSettings_ack_unsolicited c vals (by intro l' h; rw [hl] at h; cases h)]; exact Keep15.refl c
 
 end H2V.Lemmas.ConnCtlP
